@@ -280,6 +280,55 @@ def scan_graphs(run, rng, n):
         run.sample({"scan_graph_case": desc})
 
 
+def transient_write_probe(run, rng, n):
+    """a task must not modify its input EVEN TEMPORARILY (another task may read the same block at that moment): the block-level reduction
+    runs in a worker thread on a large writeable block while this thread keeps reading a few of the block's entries"""
+    import threading
+
+    import numpy as np
+
+    import flox.core as fc
+
+    for _ in range(n):
+        size = rng.choice([1_000_000, 2_000_000])
+        ng = rng.choice([3, 50])
+        func = rng.choice(["nansum", "nanmax", "nanmin", "nanmean", "nanprod", "sum", "max", "nanvar"])
+        engine = rng.choice(["flox", "flox", "numpy"])
+        labels = np.sort(np.arange(size) % ng)                       # already sorted: kernels may work on the caller's buffer
+        vals = (np.arange(size, dtype=float) % 13) - 6
+        watch = np.array(sorted(rng.sample(range(size), 40)))
+        vals[watch[::2]] = np.nan
+        before = vals[watch].copy()
+        seen = {"changed": None, "done": False, "error": None}
+
+        def work():
+            try:
+                fc.chunk_reduce(vals, labels, func=func, engine=engine, expected_groups=None)
+            except Exception as e:  # noqa: BLE001
+                seen["error"] = repr(e)[:200]
+            seen["done"] = True
+
+        t = threading.Thread(target=work)
+        t.start()
+        polls = 0
+        while not seen["done"]:
+            cur = vals[watch]
+            polls += 1
+            if not np.array_equal(cur, before, equal_nan=True):
+                seen["changed"] = [float(x) for x in cur[:6]]
+                break
+        t.join()
+        run.count(f"transient|{size}|{ng}|{func}|{engine}", True)
+        run.extra["transient_probe_polls"] = run.extra.get("transient_probe_polls", 0) + polls
+        after_ok = np.array_equal(vals[watch], before, equal_nan=True)
+        if seen["changed"] is not None or not after_ok:
+            run.violation({"property": "C13", "kind": "a block-level task modified its input " + ("while it was running (the values were restored afterwards)" if after_ok else "(and left it modified)"),
+                           "func": func, "engine": engine, "block_size": size, "ngroups": ng, "watched_entries_before": [float(x) for x in before[:6]],
+                           "watched_entries_seen_during_the_task": seen["changed"],
+                           "how_to_run": "tools/props/c13.py:transient_write_probe (flox.core.chunk_reduce on a sorted-label writeable block in a worker thread, polled from the main thread)"},
+                          tag="transient")
+
+
 def user_aggregation_reuse(run, rng, n):
     """a user-supplied Aggregation object reused for a second, different call: the graph built by the FIRST call must still
     compute what it computed before (tasks are self-contained: they do not read state shared with the user's object / later calls)"""
@@ -373,6 +422,7 @@ def run(run: C.Run):
     graphs(run, rng, 2500 if thorough else 260)
     few_block_graphs(run, rng, 800 if thorough else 90)
     scan_graphs(run, rng, 600 if thorough else 70)
+    transient_write_probe(run, rng, 40 if thorough else 8)
     threaded_shared(run, rng, 60 if thorough else 8)
     user_aggregation_reuse(run, rng, 400 if thorough else 60)
     if any(not o[1] for o in run.obligations) and not run.violations:
